@@ -11,6 +11,7 @@ R3 seek clears `finished` and `pending` first and returns success on every path.
 R5 heap discipline (rules/heaprule.py): the heap rebuilt by a seek (heap_heapify) and maintained by pop / replace is a heap for every ordering of up to 5 (6 thorough) heads.
 R6 dispatch wiring (rules/dispatch.py): the mtbl_iter / mtbl_source function tables are registered, called (own closure, own slot, parameters forwarded in order) and filled at every construction site without cross-wiring slots of equal signature.
 """
+import re
 from .common import *
 
 EXPLANATION = ("static decision-table rules over the abstract paths of merger_iter_seek (which abstract comparison results "
@@ -62,6 +63,22 @@ def run(ctx, res):
     res.floor("C05.R3", 2)
     res.floor("C05.R4", 2)
     n_back = n_fwd = 0
+    # is the iterator's `pending` flag state that outlives a call of next (read there before it is written)?  If next sets it
+    # before reading it on every path - or the flag does not exist - a seek has nothing to reset there.
+    pending_live = False
+    rec_it = prog.record("merger_iter", U)
+    if rec_it is not None and any(f_["name"] == "pending" for f_ in rec_it["fields"]):
+        nx = prog.need("merger_iter_next", U)
+        for p_ in APE.run(prog, cg, nx, bound=1).paths:
+            wrote = False
+            for e_ in p_.events:
+                if e_.kind == "store" and re.sub(r"@\d+", "", e_.a).endswith("->pending"):
+                    wrote = True
+                    break
+                if e_.kind == "branch" and "->pending@" in str(e_.a):
+                    break
+            if not wrote and any("->pending@" in a_ for (a_, b_) in p_.cons):
+                pending_live = True
     for p in ev.paths:
         evs = [e for e in p.events if e.kind != "branch"]
         # which locals hold "all entries" elements vs the heap head
@@ -128,8 +145,10 @@ def run(ctx, res):
             pen_st = [e for e in evs if e.kind == "store" and e.a.endswith("->pending")]
             moving = [i for i, e in enumerate(evs) if e.kind == "call" and e.a in ("mtbl_iter_seek", "heap_pop", "heap_replace", "heap_clip", "heap_add", "heap_heapify", "entry_fill")]
             firstmove = moving[0] if moving else len(evs)
-            okclear = bool(fin_st) and bool(pen_st) and fin_st[0].b == ("c", 0) and all(e.b == ("c", 0) for e in pen_st) and \
-                evs.index(fin_st[0]) < firstmove and evs.index(pen_st[0]) < firstmove
+            okclear = bool(fin_st) and fin_st[0].b == ("c", 0) and evs.index(fin_st[0]) < firstmove
+            if pending_live:
+                # `pending` survives from one call of next to the following one: seek has to reset it as well
+                okclear = okclear and bool(pen_st) and all(e.b == ("c", 0) for e in pen_st) and evs.index(pen_st[0]) < firstmove
             first = [e for e in evs if e.kind == "store" and not e.a.isidentifier()][:2]
             res.check(okclear, "C05.R3", site(seek, "entry"),
                       "seek clears finished and pending before anything else",
